@@ -1,7 +1,7 @@
 (* Dispatch.v -- single entry point of the executable model: opcode * argument -> result.
    Used identically by the extracted OCaml driver and by in-Coq vm_compute samples. *)
 From Coq Require Import List ZArith.
-From Yv Require Import Base.Sx Run.RunSym Run.RunGeom Run.RunCache Run.RunTrunc Run.RunStruct Run.RunBlock Run.RunFermi Run.RunFusion Run.RunSerial Run.RunLinalg Run.RunMps Run.RunCanon Run.RunKrylov Run.RunSweep Run.RunStep Run.RunGates.
+From Yv Require Import Base.Sx Run.RunSym Run.RunGeom Run.RunCache Run.RunTrunc Run.RunStruct Run.RunBlock Run.RunFermi Run.RunFusion Run.RunSerial Run.RunLinalg Run.RunMps Run.RunCanon Run.RunKrylov Run.RunSweep Run.RunStep Run.RunGates Run.RunSwaps.
 Import ListNotations.
 Open Scope Z_scope.
 
@@ -42,6 +42,7 @@ Definition run (op : Z) (arg : sx) : sx :=
   | 142 => run_tdvp_half arg
   | 150 => run_gate_mats arg
   | 151 => run_gate_form arg
+  | 160 => run_swaps_op arg
   | _ => sErr 999
   end.
 
